@@ -285,7 +285,7 @@ fn run(rep: &Report) {
     let bases = base_programs(&env);
     let fsets = flag_sets(thorough);
     let refs = ref_lists();
-    rep.set_rule("programs: (a) quoted spend lists = 2 puzzle kinds x ~108 condition letters, 8 failing puzzles, two-spend / double-spend / empty lists, 15 spend-tuple defects x spend-list terminator x output extension, 4 output shapes; (b) 11 procedural templates (cons-built lists, parent id / puzzle hash read from block references 1 and 2, apply, if on the deserialiser, raise, atom, path); each plainly serialised and back-reference compressed; x 4 block reference lists x all 32 flag subsets of {MEMPOOL_MODE, COST_CONDITIONS, SIMPLE_GENERATOR, LIMIT_SPENDS, INTERNED_GENERATOR} x limits {max block, c2, c2-1, c1, c1-1}; (c) deviation bound 1: every proper prefix and every single-byte substitution by {00,01,7f,80,fe,ff} of every base program of <= 200 bytes under 4 (quick) / 6 (thorough) flag sets; deviation bound 2 (two substitutions) on base programs of <= 24 (quick) / <= 64 (thorough) bytes. thorough also: every recorded mainnet block (block-*) of /repo/generator-tests below 200 kB with single-byte substitutions at 256 evenly spaced positions. distinct = distinct (program bytes)");
+    rep.set_rule("programs: (a) quoted spend lists = 2 puzzle kinds x ~108 condition letters, 8 failing puzzles, two-spend / double-spend / empty lists, 15 spend-tuple defects x spend-list terminator x output extension, 4 output shapes; (b) 11 procedural templates (cons-built lists, parent id / puzzle hash read from block references 1 and 2, apply, if on the deserialiser, raise, atom, path); each plainly serialised and back-reference compressed; x 4 block reference lists x all 32 flag subsets of {MEMPOOL_MODE, COST_CONDITIONS, SIMPLE_GENERATOR, LIMIT_SPENDS, INTERNED_GENERATOR} x limits {max block, c2, c2-1, c1, c1-1}; (c) deviation bound 1: every proper prefix, every single-byte substitution by {00,01,7f,80,fe,ff}, every single-byte insertion of {00,01,80,81,fe,ff} and every single-byte deletion of every base program of <= 200 bytes under 4 (quick) / 6 (thorough) flag sets; deviation bound 2 (two substitutions) on base programs of <= 24 (quick) / <= 64 (thorough) bytes. thorough also: every recorded mainnet block (block-*) of /repo/generator-tests below 200 kB with single-byte substitutions at 256 evenly spaced positions. distinct = distinct (program bytes)");
     rep.assume("allowed asymmetry: legacy-only rejection with CostExceeded / TooManyPairs / TooManyAtoms / OutOfMemory / stack-limit errors");
 
     // base programs, all dimensions
@@ -353,6 +353,19 @@ fn run(rep: &Report) {
                     variants.push(v);
                 }
             }
+        }
+        // single-byte insertions (e.g. 81 before a one-byte atom = over-long length prefix) and deletions
+        for i in 0..=prog.len() {
+            for s in [0x00u8, 0x01, 0x80, 0x81, 0xfe, 0xff] {
+                let mut v = prog.clone();
+                v.insert(i, s);
+                variants.push(v);
+            }
+        }
+        for i in 0..prog.len() {
+            let mut v = prog.clone();
+            v.remove(i);
+            variants.push(v);
         }
         if prog.len() <= (if thorough { 64 } else { 24 }) {
             for i in 0..prog.len() {
